@@ -160,7 +160,36 @@ func grow(r *core.Rand, t *gtree, from int, count int, W int, netT int64, deps [
 			plan[j] = pl
 		}
 	}
+	// an "unknown rule" campaign: some windows carry a bit no deployment owns in about
+	// netT-1 / netT / netT+1 / all blocks (drives the warning machine to LockedIn / Active)
+	unknownBit := -1
+	var unknownPlan []bool
+	replanUnknown := func() {
+		if unknownBit >= 0 && r.Chance(2, 3) {
+			// keep campaigning on the same bit so it can get from LockedIn to Active
+		} else if r.Chance(1, 3) {
+			unknownBit = int(r.Pick(28, 28, 27, 0, 1, r.Range(0, 28)))
+		} else {
+			unknownBit = -1
+		}
+		unknownPlan = make([]bool, W)
+		if unknownBit < 0 {
+			return
+		}
+		c := r.Pick(netT-1, netT, netT, netT+1, int64(W))
+		if c > int64(W) {
+			c = int64(W)
+		}
+		for k := int64(0); k < c; {
+			p := r.Intn(W)
+			if !unknownPlan[p] {
+				unknownPlan[p] = true
+				k++
+			}
+		}
+	}
 	replan()
+	replanUnknown()
 	for i := 0; i < count; i++ {
 		length := 1
 		var prevTs, prevMtp int64 = 1000000, 999999
@@ -171,8 +200,12 @@ func grow(r *core.Rand, t *gtree, from int, count int, W int, netT int64, deps [
 		pos := (length - 1) % W // height % W
 		if pos == 0 {
 			replan()
+			replanUnknown()
 		}
 		v := uint32(0x20000000)
+		if unknownBit >= 0 && unknownPlan[pos] {
+			v |= 1 << uint(unknownBit)
+		}
 		for j, d := range deps {
 			if plan[j][pos] && d.bit < 32 {
 				v |= 1 << uint(d.bit)
@@ -435,7 +468,7 @@ func genInstance(r *core.Rand, reuse *inst, allowExcluded bool) *inst {
 			warnBits = append(warnBits, d.bit)
 		}
 	}
-	warnBits = append(warnBits, r.Intn(29), 28, 0)
+	warnBits = append(warnBits, r.Intn(29), 28, 28, 27, 1, 0)
 	heavy := 0 // I / W queries walk all 29 warning bits: at most two per line
 	for _, qn := range qnodes {
 		id := focus
@@ -479,8 +512,10 @@ func genInstance(r *core.Rand, reuse *inst, allowExcluded bool) *inst {
 			qs = append(qs, fmt.Sprintf("s%d@%d", id, qn))
 		case 7:
 			qs = append(qs, fmt.Sprintf("a%d@%d", id, qn))
-		case 8, 9:
+		case 8:
 			qs = append(qs, fmt.Sprintf("v@%d", qn))
+		case 9: // the unexported calcNextBlockVersion(node) must agree with the exported one at that tip
+			qs = append(qs, fmt.Sprintf("V@%d", qn), fmt.Sprintf("v@%d", qn))
 		case 10:
 			if excluded == "" {
 				qs = append(qs, fmt.Sprintf("c%d", id))
